@@ -274,19 +274,38 @@ def revalue(r, spec):
     return s
 
 
-def g_vmapped(r, levels, wdepth):
+def g_where_mixed(r, sh):
+    """Where whose operands have different ranks (cond / values broadcast against each other)."""
+    full = list(sh) if len(sh) >= 2 else [2, 3]
+    low = full[1:] if r.random() < 0.7 else [1] + full[1:]
+    which = int(r.integers(0, 3))
+    shapes = [full, full, full]
+    shapes[which] = low
+    if r.random() < 0.4:
+        shapes[(which + 1) % 3] = full[-1:]
+    cond = g_arr(r, shapes[0], "B")
+    a = g_arr(r, shapes[1])
+    b = g_py(r, "PF") if (which != 2 and r.random() < 0.3) else g_arr(r, shapes[2])
+    return {"w": "WH", "c": [cond, a, b]}
+
+
+def g_vmapped(r, levels, wdepth, template=None):
     sh = SHAPES[int(r.integers(0, len(SHAPES)))]
-    c = int(r.integers(0, 6))
-    if c == 0:
-        template = {"w": "LA", "fn": "fn:sum", "args": [g_expr(r, sh, wdepth - 1, same_rank=True)]}
+    c = int(r.integers(0, 7))
+    if template is not None:
+        pass
+    elif c == 0:
+        template = {"w": "LA", "fn": "fn:sum", "args": [g_expr(r, sh, wdepth - 1)]}
     elif c == 1:
-        template = {"w": "LA", "fn": "fn:add", "args": [g_expr(r, sh, wdepth - 1, True), g_arr(r, _bcast_operand(r, sh))]}
+        template = {"w": "LA", "fn": "fn:add", "args": [g_expr(r, sh, wdepth - 1), g_arr(r, _bcast_operand(r, sh))]}
     elif c == 2:
-        template = {"w": "BR", "c": [g_expr(r, sh, wdepth - 1, True)], "bij": g_bij(r, sh, 2)}
+        template = {"w": "BR", "c": [g_expr(r, sh, wdepth - 1)], "bij": g_bij(r, sh, 2)}
     elif c == 3:
-        template = {"w": "LA", "fn": "fn:pair", "args": [g_expr(r, sh, wdepth - 1, True)]}
+        template = {"w": "LA", "fn": "fn:pair", "args": [g_expr(r, sh, wdepth - 1)]}
+    elif c == 4:
+        template = g_where_mixed(r, sh)
     else:
-        template = g_expr(r, sh, wdepth, same_rank=True)
+        template = g_expr(r, sh, wdepth)
         if "a" in template:
             template = {"w": "LA", "fn": "fn:add1", "args": [template]}
     dims = [int(r.integers(1, 4)) for _ in range(levels)]
@@ -436,7 +455,7 @@ def unit_unwrap(ctx, specs, uname, what, vmapped=False):
             e2 = oracle_vmapped(spec, ru)
             errs += e2
         if errs:
-            ctx.violation(sig=f"{uname}:oracle:{errs[0].split(':')[0][:40]}", what="; ".join(errs)[:600], case=case, found_input=True,
+            ctx.violation(sig=("vmapped-where:mixed-rank" if uname == "vmapped-where-mixed-rank" else f"{uname}:oracle:{errs[0].split(':')[0][:40]}"), what="; ".join(errs)[:600], case=case, found_input=True,
                           unit=uname, expected="unwrap idempotent, every wrapper applied once inside-out, vmapped = stacked", observed=errs,
                           broken="C12_unwrap_idempotent / C12_unwrap_each_once",
                           reproducer="cd /verif && ./check C12 --replay <this file>")
@@ -485,8 +504,8 @@ def oracle_vmapped(spec, ru):
     jnp, jtu = s["jnp"], s["jtu"]
 
     def stack(*xs):
-        if isinstance(xs[0], (s["jax"].Array, np.ndarray)):
-            return jnp.stack(xs).reshape(batch + xs[0].shape)
+        if isinstance(xs[0], (s["jax"].Array, np.ndarray, np.generic)):  # np.generic: -x of a 0-d numpy array is a numpy scalar
+            return jnp.stack([jnp.asarray(x) for x in xs]).reshape(batch + tuple(np.shape(xs[0])))
         return xs[0]
 
     exp = jtu.tree_map(stack, *parts)
@@ -1114,8 +1133,8 @@ def unit_frozen_submodule(ctx):
 
 
 def vmapped_where_mixed_rank_case():
-    """Where constructed under eqx.filter_vmap from operands of different rank: unwrap vs the stack of the individually
-    constructed ones.  -> error string or None."""
+    """Where constructed under eqx.filter_vmap from operands of different rank (finding fixed by e8ef053: Where had no _dummy, so
+    the batch axis of the lower-rank operand was broadcast against a data axis).  -> error string or None."""
     s = _setup()
     jnp, eqx, w = s["jnp"], s["eqx"], s["wrappers"]
 
@@ -1135,22 +1154,26 @@ def vmapped_where_mixed_rank_case():
     return None
 
 
-def unit_vmapped_where(ctx):
-    """Candidate finding reported to the coordinator: a VIOLATION only when known_findings.json lists it for C12 (status known ->
-    KNOWN-FINDING, status fixed -> regression alarm); otherwise an evidence note."""
-    import re
-
-    u = ctx.unit("vmapped-where-mixed-rank", "Where (no _dummy) constructed under filter_vmap with operands of different rank: unwrap vs stack of individual")
-    u.count("where-mixed-rank", nontrivial=True, tag="Where")
+def unit_vmapped_where(ctx, n):
+    """Where under 1-2 levels of filter_vmap with operands of DIFFERENT rank: the fixed repro, then generated cases through the
+    ordinary vmapped unit (model + oracle 'unwrap(vmapped) = stack of unwrap(individual)')."""
+    u = ctx.unit("vmapped-where-mixed-rank", "Where constructed under 1-2 levels of eqx.filter_vmap with operands of different rank: unwrap vs the model and "
+                                             "vs the stack of the individually constructed ones")
+    u.count("repro", nontrivial=True, tag="repro")
     err = vmapped_where_mixed_rank_case()
     if err:
-        sig = "vmapped-where:mixed-rank"
-        if any(k.get("property") == "C12" and re.fullmatch(k["match"], sig) for k in ctx.known):
-            ctx.violation(sig=sig, what=err, case={"kind": "vmapped-where"}, found_input=True, unit=u.name, expected="= stack of individually constructed",
-                          observed=err, broken="unwrap(vmapped) = stack of unwrap(individual) on the real code (oracle)",
-                          reproducer="cd /verif && ./check C12 --replay <this file>")
-        else:
-            ctx.notes.append("DEFECT CANDIDATE (latent; not listed in known_findings.json, so reported as a note only): " + err[:400])
+        ctx.violation(sig="vmapped-where:mixed-rank", what=err, case={"kind": "vmapped-where"}, found_input=True, unit=u.name,
+                      expected="= stack of individually constructed", observed=err, broken="C12_unwrap_vmapped on the real code (oracle)",
+                      reproducer="cd /verif && ./check C12 --replay <this file>")
+    r = ctx.rng
+    specs = []
+    for _ in range(n):
+        sh = SHAPES[int(r.integers(3, len(SHAPES)))]
+        t = g_where_mixed(r, sh)
+        if r.random() < 0.4:  # nested: the mixed-rank Where inside another wrapper / with a wrapped operand
+            t = {"w": "LA", "fn": "fn:add1", "args": [t]} if r.random() < 0.5 else {"w": "WH", "c": [t["c"][0], {"w": "NT", "c": [t["c"][1]]}, t["c"][2]]}
+        specs.append(g_vmapped(r, int(r.integers(1, 3)), 2, template=t))
+    unit_unwrap(ctx, specs, "vmapped-where-mixed-rank", u.what, vmapped=True)
 
 
 def note_lambda_returning_wrapper(ctx):
@@ -1205,7 +1228,7 @@ def run(ctx):
     _guard(ctx, "conditioner", unit_conditioner, 8 if q else 80)
     _guard(ctx, "training-oracle", unit_training, 12 if q else 130)
     _guard(ctx, "frozen-submodule", unit_frozen_submodule)
-    _guard(ctx, "vmapped-where-mixed-rank", unit_vmapped_where)
+    _guard(ctx, "vmapped-where-mixed-rank", unit_vmapped_where, 10 if q else 120)
     note_lambda_returning_wrapper(ctx)
     ctx.assumptions += [
         "optimisers are functions of the params half that preserve its structure (optax updates + eqx.apply_updates)",
